@@ -257,6 +257,13 @@ def worker(rec, shard, nshards, setups, lits, seed):
                     if "UNITS_INVALID" not in codes and "VALUE_INVALID" not in codes:
                         rec.violation("C11:undeclared-unit-accepted:word-between-number-and-unit", schema=st.label, text=text,
                                       codes=codes)
+                    try:
+                        val = HedTag(text, st.schema).value_as_default_unit()
+                        if val is not None:
+                            rec.violation("C11:value-defined-for-unrecognised-unit", schema=st.label, text=text, value=val)
+                    except Exception as e:
+                        rec.violation(f"C11:conversion-raises:{type(e).__name__}:unrecognised-unit", schema=st.label, text=text,
+                                      error=repr(e)[:200])
                     rec.outcome("embedded-word")
             for u, uc in st.orc.units_of(tag):
                 if "unitPrefix" not in u.attrs:
